@@ -9,6 +9,7 @@ import OptreeModel.Model.Twins
 import OptreeModel.Model.Ravel
 import OptreeModel.Model.Dataclass
 import OptreeModel.Model.Alias
+import OptreeModel.Model.Fault
 import OptreeModel.Generated.Fresh
 import OptreeModel.Generated.Twins
 import OptreeModel.Generated.Hash
@@ -254,6 +255,17 @@ def evalOp (st : DriverState) : Sexp → Res Sexp
       let t ← Res.ofDec (decObj tree)
       let (ls, sp) ← Res.ofExcept (flatten cfg t)
       pure (encOk [encLeaves ls, encSpec sp])
+  | .list [.atom "faultflatten", k, cfg, tree] => do
+      -- flatten with the k-th (0-based) callback invocation raising UserExc(99); `N`: no fault
+      let cfg ← Res.ofDec (decCfg st cfg)
+      let t ← Res.ofDec (decObj tree)
+      let fault ← match k with
+        | .atom "N" => pure Option.none
+        | k => do pure (some ((← Res.ofDec (decNat k)), Err.user 99))
+      let (r, n) := (flattenC cfg t).run cfg.oracle fault 0
+      match r with
+      | .error e => pure (encOk [l [.atom "calls", nat n], encErr e])
+      | .ok (ls, sp) => pure (encOk [l [.atom "calls", nat n], encLeaves ls, encSpec sp])
   | .list [.atom "flatten_with_path", cfg, tree] => do
       let cfg ← Res.ofDec (decCfg st cfg)
       let t ← Res.ofDec (decObj tree)
